@@ -44,7 +44,7 @@ ExpandSound(c)     == c.q = "expand" => \A v \in Vals(c) : SameAt(c.e1, c.x, v)
 
 \* anything outside the integer model is a machinery problem, never a verdict
 Trees(c) == <<c.e1, c.e2, c.x>> \o c.sols
-Unsupported(c) == \E k \in DOMAIN Trees(c) : \E v \in Vals(c) : EvalInt(Trees(c)[k], v).d = 2
+Unsupported(c) == \E k \in DOMAIN Trees(c) : ~ IsIntTree(Trees(c)[k], NameSet(c))
 
 Witness(c, clause) ==
   CASE clause = "EqualSound"      -> CHOOSE v \in Vals(c) : ~ SameAt(c.e1, c.e2, v)
